@@ -26,6 +26,8 @@ typedef struct vf_sched_cfg_s {
   uint64_t pct_steps;      /* PCT: estimated number of points in the run                          */
   uint64_t step_budget;    /* baton: after this many points the run is released to free-run (inconclusive) */
   const char* hot;         /* comma separated substrings of function names                        */
+  unsigned tso_den;        /* baton: a non-seq_cst atomic store is kept in a simulated store buffer with probability 1/den (0 = never) until the
+                              thread's next atomic operation that is not a load, a load of the same location, or its 2nd following load */
   const char* script;      /* script policy: "v:k:t,..." = when managed thread v executes its k-th point (1-based) the baton goes to thread t (if runnable);
                               "v:k:s" = the k-th weak CAS of thread v fails spuriously.  Otherwise threads run non-preemptively: lowest index first,
                               after a thread finishes or says it waits the most recently preempted runnable thread continues (else the next index, cyclic) */
@@ -40,6 +42,9 @@ int  vf_thread_create(vf_thread_fn fn, void* arg);   /* returns the managed thre
 /* main thread: start the managed threads and wait until all of them (incl. ones created later) have finished */
 void vf_run_all(void);
 
+/* makes a store that is still in the calling thread's simulated store buffer visible (the harness calls it after every allocator call:
+   its own signalling between threads must not overtake the allocator's stores) */
+void vf_flush(void);
 /* harness level points */
 void vf_user_point(const char* what);   /* an ordinary switch point                                          */
 void vf_user_yield(const char* what);   /* "I am waiting for somebody else": forces a switch when possible  */
@@ -52,6 +57,8 @@ typedef struct vf_sched_stats_s {
   uint64_t sched_hash;      /* hash over (thread, function) at every switch: identifies the interleaving */
   int      budget_exceeded;
   int      threads_created;
+  uint64_t delayed_stores;  /* stores that were kept in the simulated store buffer */
+  uint64_t loads_overtaking; /* atomic loads executed while an older store of the same thread was still buffered */
   int      script_fired;    /* script entries that caused a switch / a spurious failure */
 } vf_sched_stats_t;
 /* points executed so far by managed thread `index` (script policy bookkeeping; -1 if unknown) */
